@@ -32,7 +32,7 @@ RULE = (
     "zone class, relativize, fault kind, position class, outcome)."
 )
 RULE += " " + (
-    "Also: after an applied transfer the zone is compared in its stored form (relative names in a relativized zone) with a zone-file load of the server's records."
+    "Also: after an applied transfer the zone is compared in its stored form (relative names in a relativized zone) with a zone-file load of the server's records. Zones with retained history before the transfer; signed aliases; deadlines of every wait in the sync loop and of every wait handed to the async backend."
 )
 ASSUMPTIONS = [
     "reference stream interpreter B3 in this file (DESIGN.md Appendix B3) decides accept / reject / not-done and the resulting content",
